@@ -19,6 +19,8 @@ pub use crate::sink::AttachGlobalEntrySinkExt;
 pub mod entry;
 pub mod format;
 pub(crate) mod rate_limit;
+#[cfg(metrique_verif)]
+pub use rate_limit::verif as rate_limit_verif;
 pub mod sample;
 pub mod sink;
 pub mod stream;
